@@ -12,7 +12,7 @@ RULE = ('scenario: 1..3 per-thread programs (optionally sharing one thread id) o
         'strings, sampler windows, page faults with nested real-fault records of all four kinds, launch windows), '
         'merged by a generated schedule, then destructive edits: drop a prefix, drop a pseudo-random subset, duplicate '
         'events. Every surviving event is individually in-domain. templates: for every decodable name a fixed set '
-        'of 14 window shapes (missing START/END, lookups cut after their first chunk, undecoded nested kinds, ...) '
+        'of 24 window shapes (missing START/END, lookups cut after their first chunk, undecoded nested kinds, ...) '
         'enumerated completely. Oracle: TracesParser.feed_generator + str() of every trace, and '
         'PyKdebugParser.formatted_traces on the same events as a v2 file (colour on and off), raise nothing. '
         'Non-trivial: an edit removed a record that a surviving decoder reads as context (lookup, data record, '
@@ -86,7 +86,8 @@ def prop_scenario(ctx, case):
 
 
 TEMPLATE_SHAPES = ['S E', 'S', 'E', 'N', 'A', 'S L E', 'S L L E', 'S L L L L L L E', 'S Lcut E', 'S J E', 'S P E',
-                   'E S', 'S S E E', 'S F E', 'S G E', 'L S E', 'S T E', 'S M E']
+                   'E S', 'S S E E', 'S F E', 'S G E', 'L S E', 'S T E', 'S M E', 'S Lmid E', 'S Lend E', 'S Lmid L E',
+                   'S H E', 'S D E', 'S U E']
 
 
 def template_events(name, shape, seed, tid=0x77):
@@ -106,6 +107,16 @@ def template_events(name, shape, seed, tid=0x77):
             out += EV.lookup_events(tid, S.expand_words(seed, k)[0], SC.path_text(seed, k))
         elif tok == 'Lcut':
             out += EV.lookup_events(tid, 5, b'/a/long/path/that/needs/three/chunks/' + b'x' * 40)[:1]
+        elif tok == 'Lmid':      # a three-chunk lookup whose START chunk was lost
+            out += EV.lookup_events(tid, 5, b'/a/long/path/that/needs/three/chunks/' + b'y' * 40)[1:]
+        elif tok == 'Lend':      # only the END chunk survived
+            out += EV.lookup_events(tid, 5, b'/a/long/path/that/needs/three/chunks/' + b'z' * 40)[-1:]
+        elif tok == 'H':
+            out.append(SC.ev(tid, 'PERF_STK_UHdr', 0, seed, k))
+        elif tok == 'D':
+            out.append(SC.ev(tid, 'PERF_THD_Data', 0, seed, k))
+        elif tok == 'U':
+            out.append(SC.ev(tid, 'DYLD_uuid_shared_cache_a', 0, seed, k))
         elif tok == 'J':
             out.append(SC.junk(tid, seed, k))
         elif tok == 'P':
@@ -147,5 +158,5 @@ def run(ctx):
     names = [n for n in names if n in byname]
     seeds = [S.expand_words(ctx.seed * 1000 + s + 4096 + 100 * ctx.shard)[0] for s in range(ctx.n(3, 8))]
     cases = ({'name': n, 'shape': sh, 'seed': sd} for sd in seeds for n in names for sh in TEMPLATE_SHAPES)
-    ctx.run_enum('template', cases, prop_template, exhaustive_label='every decodable name x 18 window shapes')
+    ctx.run_enum('template', cases, prop_template, exhaustive_label='every decodable name x 24 window shapes')
     ctx.run_given('scenario', scenario_strategy(), prop_scenario, ctx.n(1200, 5000))
